@@ -6,9 +6,9 @@ UNIT = {
                   {'file': 'riscv_analysis/src/parser/parsing.rs', 'item': 'impl RVParser<T> :: fn recover_from_parse_error'}],
     'obligations': [
         {'id': 'lines_n.files', 'recipe': ['lines-search'], 'props': ['C07'], 'kind': 'bounded',
-         'bound': '13851 files: every malformed line of a pool of 14 (missing / bad / extra operand, unknown mnemonic or directive, stray character, '
+         'bound': '44529 files: every character prefix of each of the 104 statement forms of the decode table as a middle line and as the last line (with and without line terminator, LF and CR LF); every malformed line of a pool of 14 (missing / bad / extra operand, unknown mnemonic or directive, stray character, '
                   'unclosed string / char / parenthesis, literal out of range) between, before and after every pair of a pool of 9 good lines, '
-                  'with and without trailing newline, LF and CR LF, with blank and comment lines; plus 675 base+include file pairs with a malformed line in each file',
+                  'with and without trailing newline, LF and CR LF, with blank and comment lines; every pair of 14 data / section directives (values in and out of range, strings, unsupported directives) around good lines; plus 2295 base+include file pairs: a malformed line in each file, and a malformed line at every position of an included file of 1-3 lines (also as its unterminated last line) included from every position of a 5-line base file',
          'clause': 'every line holding more than blanks or a comment yields a node located on it or a parse error located on it; deleting a line that '
                    'produced an error leaves the nodes of every other line unchanged',
          'tier': 'quick'},
